@@ -155,6 +155,7 @@ def p1_worker(part, job, seed, thorough):
 # ------------------------------------------------------------------------------------------------------
 R_GROUPS = (146, 148, 155, 160, 161, 166, 167)
 HROWS = {r["number"]: r["symops"] for r in symm.load_table() if r["number"] in R_GROUPS and r["choice"] == "H"}
+RROWS = {r["number"]: r["symops"] for r in symm.load_table() if r["number"] in R_GROUPS and r["choice"] == "R"}
 AC = [(10.0, 14.0), (34.45, 11.24), (6.0, 30.0)]
 
 
@@ -180,14 +181,20 @@ def trig_initial(spec):
     M = lattice.cell_matrix(*cell)
     syms = [s for s, _ in sites]
     frac = np.array([p for _, p in sites], dtype=float)
-    # keep distinct images at least 1 A apart (then they are > 0.01 apart in the fractional metric of either setting,
-    # i.e. away from the library's merge tolerance, as the property stipulates); shift along a fixed generic direction
+    # keep distinct images more than 0.02 apart in the fractional metric of BOTH settings, i.e. away from the
+    # library's 0.01 merge tolerance, as the property stipulates
     hops = [symm.decode(c) for c in HROWS[spec["number"]]]
+    rops = [symm.decode(c) for c in RROWS[spec["number"]]]
+    T = np.array(((2, 1, 1), (-1, 1, 1), (-1, -2, 1))) / 3.0
+    MRref = T @ M
     special = np.array([abs(p[0]) < 1e-12 or abs(p[0] - 1 / 3) < 1e-12 for _, p in sites])
     for k in range(400):
-        cand = frac + np.where(special[:, None], 0.0, 1.0) * k * np.array([0.0137, -0.0219, 0.0311]) \
-            + np.where(special[:, None], 1.0, 0.0) * k * np.array([0.0, 0.0, 0.0173])
-        if xtal.image_separation(hops, cand, M) > 1.0:
+        # general atoms move along a generic direction, axis atoms along z, each by its own multiple
+        cand = frac.copy()
+        for i in range(len(cand)):
+            cand[i] = cand[i] + (k * (i + 1)) * (np.array([0.0, 0.0, 0.0173]) if special[i] else np.array([0.0137, -0.0219, 0.0311]))
+        candR = (cand @ M) @ np.linalg.inv(MRref)
+        if xtal.image_separation(hops, cand) > 0.02 and xtal.image_separation(rops, candR) > 0.02:
             frac = cand
             break
     else:
